@@ -201,3 +201,58 @@ def dunder_sweep(ctx, rule, modules):
         if name not in _DATA_MODEL:
           ctx.note('%s.%s is dunder-shaped but not a data-model method' % (c.qual, name))
   return n
+
+
+# ----------------------------------------------------------------------------
+# Lock guard (C11, C12, C16)
+
+LOCK_SETTER = 'config._set_config_is_locked'
+LOCK_GETTER = 'config.config_is_locked'
+
+
+def lock_model(ctx):
+  """Finds the lock flag, its getter and setter semantically and returns
+  (atom_texts, writers) where writers = functions from which the setter is
+  reachable."""
+  prog = ctx.prog
+  getter = ctx.func(LOCK_GETTER)
+  setter = ctx.func(LOCK_SETTER)
+  rets = [n for n in walk_local(getter.node) if isinstance(n, ast.Return)]
+  if len(rets) != 1 or not isinstance(rets[0].value, ast.Name):
+    raise AnalysisError('config_is_locked no longer returns the lock flag directly')
+  flag = rets[0].value.id
+  writes = [n for n in walk_local(setter.node) if isinstance(n, ast.Name)
+            and n.id == flag and isinstance(n.ctx, ast.Store)]
+  if not writes:
+    raise AnalysisError('_set_config_is_locked no longer writes %s' % flag)
+  other = []
+  for f in ctx.ix.all_funcs(['config']):
+    if f is setter:
+      continue
+    for n in walk_local(f.node):
+      if isinstance(n, ast.Global) and flag in n.names:
+        other.append(f)
+  writers = set()
+  for f in ctx.ix.all_funcs():
+    if LOCK_SETTER in prog.reachable([f.qual]) or f in other:
+      writers.add(f.qual)
+  return {'config_is_locked()', flag}, writers, flag, other
+
+
+def lock_facts(ctx, f, atoms, writers):
+  """std_facts for f where lock atoms are killed by calls that may write the
+  lock flag."""
+  prog = ctx.prog
+
+  def extra_kill(node, fact):
+    if fact[0] == 'c' and fact[1] in atoms:
+      for c in calls_of_node(node):
+        if prog.resolve_call(f, c) in writers:
+          return True
+    return False
+
+  return std_facts(prog, f, extra_kill=extra_kill)
+
+
+def unlocked_at(fs, atoms):
+  return any(('c', a, False) in fs for a in atoms)
